@@ -450,6 +450,20 @@ class ProgramUnit(Scope):
             # Rescope to ensure that symbol references are up to date
             obj.rescope_symbols()
 
+        # Routines declared in interface blocks are program units, too, and are not
+        # rebuilt by the Transformer: clone them with the new object as parent scope
+        if obj.spec:
+            intf_map = {}
+            for intf in FindNodes(ir.Interface).visit(obj.spec):
+                if any(isinstance(node, ProgramUnit) for node in intf.body):
+                    intf_map[intf] = intf.clone(body=tuple(
+                        node.clone(parent=obj, rescope_symbols=kwargs['rescope_symbols'])
+                        if isinstance(node, ProgramUnit) else node
+                        for node in intf.body
+                    ))
+            if intf_map:
+                obj.spec = Transformer(intf_map).visit(obj.spec)
+
         obj.register_in_parent_scope()
 
         return obj
